@@ -81,12 +81,29 @@ class InvProp(Prop):
             concrete = any(not w.startswith("ERRCLASS") for w in why)
             if why == ["discovery differs"] and di[0] == "err" and dm[0] == "err":
                 concrete = False
-        return dict(agree=agree, spec_ok=None, why="; ".join(why), concrete=concrete)
+        oracle = None
+        lc = impl.get("lifecycle")
+        if isinstance(lc, dict):
+            # implementation-only: a live instance reconfigured through its public methods behaves like a fresh
+            # instance with the final settings; a clone taken before keeps behaving like the original
+            if lc.get("after_eq_fresh") is False:
+                oracle = False
+                why += lc.get("diffs", [])[:2]
+            if lc.get("clone_stable") is False:
+                oracle = False
+                why += lc.get("clone_diffs", [])[:2]
+            if oracle is False:
+                concrete = True
+        return dict(agree=agree, spec_ok=None, impl_oracle=oracle, why="; ".join(why), concrete=concrete)
 
     def tags(self, req, impl, reply):
         if req.get("op") != "inventory" or not isinstance(impl, dict):
             return []
         t = []
+        if req.get("fam"):
+            t.append("family=" + req["fam"])
+        if "lifecycle" in req:
+            t.append("lifecycle")
         d = core.norm_result(impl.get("discover"), True)
         t.append("discover:" + (d[0] if d[0] != "err" else "err:" + d[1][0]))
         for k, v in (impl.get("nodes") or {}).items():
